@@ -26,6 +26,7 @@ def _names(e):
 def run(ctx):
     repo = ctx.repo
     _flatten_order(ctx, repo)
+    _labelled_columns(ctx, repo)
     ctx.decided += [
         'C18.a Sampler.run / run_async / sample / run_batch_async / _run_sweep_impl / _run_sweep_async_impl reach run_sweep(_async) of self with program, params and repetitions '
         'derived from their own arguments and return values derived from the hook\'s result',
@@ -630,3 +631,44 @@ def _flatten_order(ctx, repo):
                        'bits are written in memory order but read back in index order, so repetitions / instances / qubits are permuted', m.rel, c.lineno)
     if n == 0:
         raise AnalysisError('C18.h: no flattening call found')
+
+
+def _labelled_columns(ctx, repo):
+    """C18.i - Sampler.sample: every value of a parameter column is looked up with the key that labels the column."""
+    ctx.decided.append('C18.i Sampler.sample: the parameter columns of the returned data frame are filled by looking each value up with the column\'s own key (a comprehension over the column '
+                       'list), not positionally from the sweep')
+    ctx.rule('C18.i', 'values keyed like their columns: for every pd.DataFrame(data=X, columns=K) in cirq.work.sampler, the rows in X are built by a comprehension that iterates K itself and '
+             'obtains each value through a lookup taking that key (value_of(key) / mapping[key])', floor=1, style='TNT')
+    m = repo.module('cirq-core/cirq/work/sampler.py')
+    n = 0
+    for fn in [f for f in ast.walk(m.tree) if isinstance(f, ast.FunctionDef)]:
+        defs = {}
+        for a in ast.walk(fn):
+            if isinstance(a, ast.Assign) and len(a.targets) == 1 and isinstance(a.targets[0], ast.Name):
+                defs.setdefault(a.targets[0].id, []).append(a.value)
+        for c in ast.walk(fn):
+            if not (isinstance(c, ast.Call) and (call_name(c) or '').split('.')[-1] == 'DataFrame'):
+                continue
+            cols = next((k.value for k in c.keywords if k.arg == 'columns'), None)
+            data = next((k.value for k in c.keywords if k.arg == 'data'), c.args[0] if c.args else None)
+            if not isinstance(cols, ast.Name) or data is None:
+                continue
+            n += 1
+            exprs = [data]
+            for x in ast.walk(data):
+                if isinstance(x, ast.Name):
+                    exprs += defs.get(x.id, [])
+            ok = False
+            for e in exprs:
+                for comp in [x for x in ast.walk(e) if isinstance(x, (ast.ListComp, ast.GeneratorExp))]:
+                    g = comp.generators[0]
+                    if isinstance(g.iter, ast.Name) and g.iter.id == cols.id and isinstance(g.target, ast.Name):
+                        key = g.target.id
+                        looked_up = any((isinstance(y, ast.Call) and any(isinstance(a_, ast.Name) and a_.id == key for a_ in y.args))
+                                        or (isinstance(y, ast.Subscript) and isinstance(y.slice, ast.Name) and y.slice.id == key) for y in ast.walk(comp.elt))
+                        ok = ok or looked_up
+            ctx.ob('C18.i', f'cirq.work.sampler.{fn.name}:DataFrame(columns={cols.id})', ok, '' if ok else
+                   f'the rows given to `{ast.unparse(c)[:70]}` are not produced by looking values up with the keys in `{cols.id}`: when a later sweep names the same parameters in another order, '
+                   'values land under the wrong column labels', m.rel, c.lineno)
+    if n == 0:
+        raise AnalysisError('C18.i: no labelled data frame construction found in cirq.work.sampler')
